@@ -38,6 +38,7 @@ func genStackCfg(t *rapid.T, kinds []string, coop bool) StackCfg {
 	c.Strategy = rapid.SampledFrom([]string{"simple", "precise", "lookup", "predicate"}).Draw(t, "strategy")
 	c.Inject = coop
 	c.FmtLog = rapid.IntRange(0, 3).Draw(t, "fmtLog") == 0
+	c.SlowMetrics = coop && rapid.IntRange(0, 2).Draw(t, "slowMetrics") == 0
 	switch c.Kind {
 	case "blocking":
 		c.TimeoutMs = rapid.SampledFrom([]int{0, 0, 5, 20, 50}).Draw(t, "timeout")
